@@ -476,6 +476,17 @@ def main():
         if problem:
             rep.violation({"kind": "source-tie-broken", "tie": tie, "what": problem}, no_input=True)
 
+    for tie in spec.get("source_contains", []):
+        try:
+            txt = re.sub(r"\s+", " ", open(os.path.join(REPO, tie["file"])).read())
+            ok = re.sub(r"\s+", " ", tie["text"]) in txt
+        except OSError:
+            ok = False
+        cov["extra"].setdefault("source_ties", []).append({"tie": tie["file"] + ": " + tie["text"][:60], "ok": ok})
+        if not ok:
+            rep.violation({"kind": "source-tie-broken", "tie": tie,
+                           "what": "%s no longer contains `%s`: %s" % (tie["file"], tie["text"], tie.get("why", ""))}, no_input=True)
+
     # ---- 2. proofs
     module = spec["props_module"]
     drivers = sorted({e["driver"] for e in spec.get("engines", [])})
